@@ -67,8 +67,13 @@ def _dispatch_body(g, crs_case, resolution, shape, anchor, tight, tol, round_res
     sx, sy = (Real(gt=0).make("fit.sx"), Real(gt=0).make("fit.sy")) if symbolic() else (0.5, 0.25)
     rr_out = Real(gt=0).make("rounded") if symbolic() else 7.0
 
-    def footprint(self, crs, buffer=0, npoints=100):
-        log["footprint"].append((self, crs, buffer, npoints))
+    _real_footprint_sig = __import__("inspect").signature(GB.footprint)
+
+    def footprint(self, *a, **k):
+        # arguments as the REAL footprint would see them: its own defaults apply to whatever the caller leaves out
+        b = _real_footprint_sig.bind(self, *a, **k)
+        b.apply_defaults()
+        log["footprint"].append((self, b.arguments["crs"], b.arguments["buffer"], b.arguments["npoints"]))
         return _GhostGeom(fp_bbox)
 
     def from_bbox(bbox, crs=None, *, tight=False, shape=None, resolution=None, anchor="default", tol=0.01):
@@ -225,6 +230,8 @@ def _sources():
     out["utm33n_mirrored_x"] = GeoBox((120, 90), Affine(-20.0, 0, 502_000.0, 0, -20.0, 5_000_000.0), "EPSG:32633")
     out["utm33n_south_up"] = GeoBox((120, 90), Affine(20.0, 0, 500_000.0, 0, 20.0, 4_990_000.0), "EPSG:32633")
     out["equator_straddling"] = GeoBox((400, 400), Affine(0.01, 0, 30.0, 0, -0.01, 2.0), "EPSG:4326")
+    # thousands of pixels per side, edges strongly curved in other CRSs: the footprint's densification matters here
+    out["laea_europe_1km"] = GeoBox((3200, 3200), Affine(1000.0, 0, 2_600_000.0, 0, -1000.0, 4_700_000.0), "EPSG:3035")
     return out
 
 
@@ -240,7 +247,7 @@ def _cog_samples():
             targets = ["EPSG:4326", "EPSG:3857", "EPSG:6933", "utm", "utm-n", "utm-s", str(g.crs)]
             if australian:
                 targets.append("EPSG:3577")
-            if sname == "lonlat_continental":
+            if sname in ("lonlat_continental", "laea_europe_1km"):
                 targets = [t for t in targets if not t.startswith("utm")]  # wider than any UTM zone's valid area
             for crs in targets:
                 geographic = crs == "EPSG:4326"
@@ -261,7 +268,7 @@ def _cog_samples():
                 for o in opts:
                     yield dict(gbox=g, crs=crs, opts=o, name=sname)
 
-    return "9 source GeoBoxes (north-up / rotated / mirrored / south-up, metre and degree based, 8 km tile to 45-degree continental) x 6-8 targets (geographic, Mercator, 2 equal-area, utm/utm-n/utm-s, own CRS) x 9 option sets (13 thorough)", gen()
+    return "10 source GeoBoxes (north-up / rotated / mirrored / south-up, metre and degree based, 8 km tile to 45-degree continental and a 3200 x 3200 km LAEA raster) x 6-8 targets (geographic, Mercator, 2 equal-area, utm/utm-n/utm-s, own CRS) x 9 option sets (13 thorough)", gen()
 
 
 def _cog_oracle(args, run):
@@ -313,8 +320,9 @@ def _cog_oracle(args, run):
         return fails
     # -- projected positions of source pixels (corners + centres on a 25 x 25 lattice incl. the image corners)
     ny, nx = g.shape
-    ii = np.unique(np.concatenate([np.linspace(0, nx, 25), np.asarray([0.5, nx - 0.5])]))
-    jj = np.unique(np.concatenate([np.linspace(0, ny, 25), np.asarray([0.5, ny - 0.5])]))
+    nlat = 25 if max(nx, ny) < 2000 else 161  # a large raster's curved edge can bulge between coarse lattice points
+    ii = np.unique(np.concatenate([np.linspace(0, nx, nlat), np.asarray([0.5, nx - 0.5])]))
+    jj = np.unique(np.concatenate([np.linspace(0, ny, nlat), np.asarray([0.5, ny - 0.5])]))
     px, py = np.meshgrid(ii, jj)
     wx, wy = g.affine * (px.ravel(), py.ravel())
     tr = g.crs.transformer_to_crs(out.crs)
